@@ -11,7 +11,7 @@ def programs : List (String × Prog) := [
   ("add", Gen.Fe448.add), ("sub", Gen.Fe448.sub), ("negate", Gen.Fe448.negate),
   ("carryPropagate", Gen.Fe448.carryPropagate), ("reduce", Gen.Fe448.reduce),
   ("mul", Gen.Fe448.mul), ("square", Gen.Fe448.square), ("mul32", Gen.Fe448.mul32),
-  ("setBytes", Gen.Fe448.setBytes), ("bytes", Gen.Fe448.bytes)]
+  ("setBytes", Gen.Fe448.setBytes), ("bytes", Gen.Fe448.bytes), ("bytesTail", Gen.Fe448.bytesTail)]
 
 def intsOf (w : Wire) : List Int := w.asArr.map Wire.asInt
 def ofInts (l : List Int) : Wire := .arr (l.map Wire.int)
@@ -31,6 +31,8 @@ def ops : OpTable := [
       let ins := intsOf (arg a 1)
       if ins.length = p.nIn then ofInts (p.outputs false ins) else .none
     | none => .none),
+  -- fe448.bytes [8 limbs] → 56 bytes: the composed model (reduce, then byte extraction)
+  ("fe448.bytes", pureOp fun a => ofInts (Model.Fe448.bytes (intsOf (arg a 0)))),
   ("fe448.nin", pureOp fun a =>
     match programs.lookup (arg a 0).asStr with
     | some p => .int p.nIn
